@@ -198,6 +198,10 @@ def run(c, chk):
         _c09w.whole_comparisons(c, chk, 'R8.14', 'cfg_free() recognises the root context by comparing its whole name: no length-limited comparison lets a section whose name only begins '
                                 'with the word pass for the root and tear the scanner down while a text is being read',
                                 only_funcs={'cfg_free'}, consequence=' - freeing (replacing) a section of that name in the middle of a parse destroys the scanner: the rest of the text is never read')
+    # R8.15: ... and what it takes for the root is the root (known finding on the tree as given: the test is by name alone)
+    if not isinstance(chk, report.SubCheck):
+        from . import c08_root as _c08r
+        _c08r.teardown_by_identity(c, chk)
     # R8.10: what "+=" does depends on the text, not on flags a refused assignment of an earlier parse left behind
     from . import c01 as _c01
     from .. import parsermodel as _pm
